@@ -1516,3 +1516,255 @@ Proof.
     apply Hrev, in_seq in Hi. lia.
   - intros Hi. apply Hincl, in_seq. lia.
 Qed.
+
+(* ================================================================== *)
+(* replaying the stored bit path through contract_nodes yields an ssa path OF the stored tree *)
+
+Lemma tree_of_ssa_app forest p1 p2 :
+  tree_of_ssa forest (p1 ++ p2) = tree_of_ssa (tree_of_ssa forest p1) p2.
+Proof.
+  revert forest. induction p1 as [|[i j] p1 IH]; intros forest; cbn [app tree_of_ssa]; [reflexivity|apply IH].
+Qed.
+
+Fixpoint replay_tm (bp : list (N * N)) (tm : list (N * nat)) (ssa : nat) : list (N * nat) :=
+  match bp with
+  | [] => tm
+  | (si, sj) :: bp' => replay_tm bp' ((N.lor si sj, ssa) :: tm) (S ssa)
+  end.
+
+Lemma replay_app bp1 : forall bp2 tm ssa,
+  replay_bitpath (bp1 ++ bp2) tm ssa =
+  replay_bitpath bp1 tm ssa ++ replay_bitpath bp2 (replay_tm bp1 tm ssa) (ssa + length bp1).
+Proof.
+  induction bp1 as [|[si sj] bp1 IH]; intros bp2 tm ssa; cbn [app replay_bitpath replay_tm length].
+  - rewrite Nat.add_0_r. reflexivity.
+  - rewrite IH. cbn [app]. replace (ssa + S (length bp1)) with (S ssa + length bp1) by lia. reflexivity.
+Qed.
+
+Lemma replay_tm_app bp1 : forall bp2 tm ssa,
+  replay_tm (bp1 ++ bp2) tm ssa = replay_tm bp2 (replay_tm bp1 tm ssa) (ssa + length bp1).
+Proof.
+  induction bp1 as [|[si sj] bp1 IH]; intros bp2 tm ssa; cbn [app replay_tm length].
+  - rewrite Nat.add_0_r. reflexivity.
+  - rewrite IH. replace (ssa + S (length bp1)) with (S ssa + length bp1) by lia. reflexivity.
+Qed.
+
+(* s is a non-empty subset of S *)
+Definition subm (s S : N) : Prop := s <> 0%N /\ N.land s S = s.
+
+Lemma subm_disjoint s q S1 S2 : subm s S1 -> subm q S2 -> N.land S1 S2 = 0%N -> s <> q.
+Proof.
+  intros [Hs Es] [Hq Eq_] Hd E. subst q. apply Hs.
+  rewrite <- Es. rewrite <- Eq_ at 1. rewrite <- N.land_assoc, (N.land_comm S2 S1), Hd. apply N.land_0_r.
+Qed.
+
+Lemma subm_refl S : S <> 0%N -> subm S S.
+Proof. intros H. split; [exact H | apply N.land_diag]. Qed.
+
+Lemma subm_lor_l s S1 S2 : subm s S1 -> subm s (N.lor S1 S2).
+Proof.
+  intros [H E]. split; [exact H|]. rewrite N.land_lor_distr_r, E.
+  apply N.bits_inj. intros k. rewrite N.lor_spec, N.land_spec. destruct (N.testbit s k); reflexivity.
+Qed.
+Lemma subm_lor_r s S1 S2 : subm s S2 -> subm s (N.lor S1 S2).
+Proof. rewrite N.lor_comm. apply subm_lor_l. Qed.
+
+Lemma mget_cons_ne q s v tm : s <> q -> mget q ((s, v) :: tm) = mget q tm.
+Proof. intros H. cbn [mget]. destruct (N.eqb_spec s q); [contradiction|reflexivity]. Qed.
+Lemma mget_cons_eq s v tm : mget s ((s, v) :: tm) = v.
+Proof. cbn [mget]. rewrite N.eqb_refl. reflexivity. Qed.
+
+Lemma post_sub_length t : length (post_sub t) = length (bitpath t).
+Proof.
+  induction t as [k|l IHl r IHr]; cbn [post_sub bitpath]; [reflexivity|].
+  rewrite !app_length, IHl, IHr. reflexivity.
+Qed.
+
+
+Lemma leaf_subm n t S : vtree n t S -> forall k, In k (leaves t) -> subm (bit k) S.
+Proof.
+  induction 1 as [i Hi|l r Sl Sr Hl IHl Hr IHr Hd]; intros k Hk; cbn [leaves] in Hk.
+  - destruct Hk as [<-|[]]. apply subm_refl, bit_neq_0.
+  - apply in_app_iff in Hk. destruct Hk as [Hk|Hk]; [apply subm_lor_l, IHl, Hk | apply subm_lor_r, IHr, Hk].
+Qed.
+
+Lemma nth_error_app_l {A} (l l' : list A) i x : nth_error l i = Some x -> nth_error (l ++ l') i = Some x.
+Proof.
+  intros H. rewrite nth_error_app1; [exact H|]. apply nth_error_Some. congruence.
+Qed.
+
+Lemma replay_tree n t S : vtree n t S ->
+  forall tm forest,
+  (forall k, In k (leaves t) -> nth_error forest (mget (bit k) tm) = Some (Leaf k)) ->
+  let tm' := replay_tm (bitpath t) tm (length forest) in
+  tree_of_ssa forest (replay_bitpath (bitpath t) tm (length forest)) = forest ++ post_sub t /\
+  nth_error (forest ++ post_sub t) (mget S tm') = Some t /\
+  (forall q, (forall s, subm s S -> s <> q) -> mget q tm' = mget q tm).
+Proof.
+  induction 1 as [i Hi|l r Sl Sr Hl IHl Hr IHr Hd]; intros tm forest Hleaf; cbv zeta.
+  - cbn [bitpath replay_bitpath replay_tm tree_of_ssa post_sub]. rewrite app_nil_r.
+    split; [reflexivity|]. split; [apply Hleaf; left; reflexivity | reflexivity].
+  - pose proof (vtree_mask _ _ _ Hl) as Ml. pose proof (vtree_mask _ _ _ Hr) as Mr.
+    pose proof (vtree_nonzero _ _ _ Hl) as Zl. pose proof (vtree_nonzero _ _ _ Hr) as Zr.
+    cbn [bitpath post_sub]. rewrite Ml, Mr.
+    destruct (IHl tm forest) as (E1 & N1 & U1).
+    { intros k Hk. apply Hleaf. cbn [leaves]. apply in_app_iff. auto. }
+    set (tm1 := replay_tm (bitpath l) tm (length forest)) in *.
+    set (forest1 := forest ++ post_sub l) in *.
+    assert (L1 : length forest1 = length forest + length (bitpath l)).
+    { unfold forest1. rewrite app_length, post_sub_length. reflexivity. }
+    destruct (IHr tm1 forest1) as (E2 & N2 & U2).
+    { intros k Hk. rewrite U1.
+      - apply nth_error_app_l. apply Hleaf. cbn [leaves]. apply in_app_iff. auto.
+      - intros s Hs. apply (subm_disjoint s (bit k) Sl Sr Hs (leaf_subm _ _ _ Hr k Hk) Hd). }
+    set (tm2 := replay_tm (bitpath r) tm1 (length forest1)) in *.
+    set (forest2 := forest1 ++ post_sub r) in *.
+    assert (L2 : length forest2 = length forest1 + length (bitpath r)).
+    { unfold forest2. rewrite app_length, post_sub_length. reflexivity. }
+    assert (Gl : nth_error forest2 (mget Sl tm2) = Some l).
+    { unfold tm2. rewrite U2.
+      - apply nth_error_app_l. exact N1.
+      - intros s Hs. apply (subm_disjoint s Sl Sr Sl Hs (subm_refl _ Zl)). rewrite N.land_comm. exact Hd. }
+    rewrite !replay_app, !replay_tm_app, !tree_of_ssa_app. rewrite E1. fold forest1. fold tm1.
+    rewrite <- L1. rewrite E2. fold tm2. fold forest2. rewrite <- L2.
+    cbn [replay_bitpath replay_tm tree_of_ssa].
+    rewrite (nth_error_nth _ _ (Leaf 0) Gl), (nth_error_nth _ _ (Leaf 0) N2).
+    assert (EF : forest2 ++ [Node l r] = forest ++ post_sub l ++ post_sub r ++ [Node l r]).
+    { unfold forest2, forest1. rewrite <- !app_assoc. reflexivity. }
+    rewrite <- EF. split; [reflexivity|]. split.
+    + rewrite mget_cons_eq. rewrite nth_error_app2 by lia. rewrite Nat.sub_diag. reflexivity.
+    + intros q Hq.
+      assert (Zlr : N.lor Sl Sr <> 0%N) by (intros H0; apply N.lor_eq_0_iff in H0; tauto).
+      rewrite mget_cons_ne by (apply Hq, subm_refl, Zlr).
+      unfold tm2. rewrite U2 by (intros s Hs; apply Hq, subm_lor_r, Hs).
+      apply U1. intros s Hs. apply Hq, subm_lor_l, Hs.
+Qed.
+
+Lemma mget_init k : forall a m, a <= k < a + m ->
+  mget (bit k) (combine (map bit (seq a m)) (seq a m)) = k.
+Proof.
+  intros a m. revert a. induction m as [|m IH]; intros a H; [lia|].
+  cbn [seq map combine mget]. destruct (N.eqb_spec (bit a) (bit k)) as [E|E].
+  - apply bit_inj, E.
+  - apply IH. assert (a <> k) by (intros ->; apply E; reflexivity). lia.
+Qed.
+
+Lemma nth_error_leaf_seq n k : k < n -> nth_error (map Leaf (seq 0 n)) k = Some (Leaf k).
+Proof.
+  intros H. rewrite (nth_error_nth' _ (Leaf 0)) by (rewrite map_length, seq_length; exact H).
+  rewrite (map_nth Leaf (seq 0 n) 0 k), seq_nth by exact H. reflexivity.
+Qed.
+
+(* the ssa path produced from the stored bit path of a tree over all n tensors is a path OF that tree *)
+Theorem replay_is_path_of_tree n t S : vtree n t S -> nleaves t = n ->
+  ssa_tree n (replay_bitpath (bitpath t) (combine (map bit (seq 0 n)) (seq 0 n)) n) = t.
+Proof.
+  intros Hv Hn. unfold ssa_tree.
+  assert (Hb : forall k, In k (leaves t) -> k < n).
+  { apply vtree_iff in Hv. apply Hv. }
+  destruct (replay_tree n t S Hv (combine (map bit (seq 0 n)) (seq 0 n)) (map Leaf (seq 0 n))) as (E & _ & _).
+  { intros k Hk. rewrite mget_init by (specialize (Hb k Hk); lia). apply nth_error_leaf_seq, Hb, Hk. }
+  rewrite map_length, seq_length in E. rewrite E.
+  destruct t as [k|l r].
+  - cbn [post_sub]. rewrite app_nil_r. cbn [nleaves] in Hn. subst n. cbn.
+    specialize (Hb k (or_introl eq_refl)). f_equal. lia.
+  - cbn [post_sub]. rewrite !app_assoc. apply last_last.
+Qed.
+
+(* ================================================================== *)
+(* a connected network has an outer-product-free tree over all its tensors *)
+
+Section Grow.
+Variable nodes : list legs.
+Variable app : list nat.
+Notation n := (length nodes).
+Hypothesis Happ : forall j, j < length app -> cnt_all nodes j <= appn app j.
+Hypothesis Hconn : connected_prop nodes (length app).
+
+Lemma cnt_fold_bit j x (l : list nat) : NoDup l ->
+  fold_right (fun i a => if N.testbit (bit j) (N.of_nat i) then leg_count x (nth i nodes []) + a else a) 0 l
+  = if memb j l then leg_count x (nth j nodes []) else 0.
+Proof.
+  induction l as [|i l IH]; intros Hnd; [reflexivity|].
+  inversion Hnd as [|? ? Hni Hnd']; subst. cbn [fold_right]. rewrite (IH Hnd'), bit_testbit.
+  unfold memb. cbn [existsb]. fold (memb j l).
+  destruct (N.eqb_spec (N.of_nat j) (N.of_nat i)) as [E|E].
+  - apply Nat2N.inj in E. subst i. rewrite Nat.eqb_refl. cbn [orb].
+    destruct (memb j l) eqn:M; [|lia].
+    exfalso. apply Hni. unfold memb in M. apply existsb_exists in M. destruct M as (y & Hy & Ey).
+    apply Nat.eqb_eq in Ey. subst. exact Hy.
+  - destruct (Nat.eqb_spec j i) as [->|Hne]; [congruence|]. reflexivity.
+Qed.
+
+Lemma cnt_bit j x : j < n -> cnt nodes (bit j) x = leg_count x (nth j nodes []).
+Proof.
+  intros Hj. unfold cnt. rewrite cnt_fold_bit by apply seq_NoDup.
+  assert (M : memb j (seq 0 n) = true).
+  { unfold memb. apply existsb_exists. exists j. split; [apply in_seq; lia | apply Nat.eqb_refl]. }
+  rewrite M. reflexivity.
+Qed.
+
+Lemma land_bit_0 S j : N.testbit S (N.of_nat j) = false -> N.land S (bit j) = 0%N.
+Proof.
+  intros H. apply N.bits_inj. intros k. rewrite N.land_spec, N.bits_0, bit_testbit.
+  destruct (N.eqb_spec (N.of_nat j) k) as [<-|_]; [rewrite H; reflexivity | apply andb_false_r].
+Qed.
+
+Lemma grow_step S j x : j < n -> N.testbit S (N.of_nat j) = false -> x < length app ->
+  0 < cnt nodes S x -> 0 < leg_count x (nth j nodes []) ->
+  shares nodes app S (bit j) = true.
+Proof.
+  intros Hj Hb Hx Hc Hl. unfold shares. apply existsb_exists. exists x. split; [apply in_seq; lia|].
+  pose proof (land_bit_0 S j Hb) as Hd.
+  assert (Hle : cnt nodes S x + cnt nodes (bit j) x <= appn app x).
+  { rewrite <- (cnt_lor nodes S (bit j) x Hd). etransitivity; [apply cnt_le_all | apply Happ, Hx]. }
+  rewrite (cnt_bit j x Hj) in Hle. unfold surv. rewrite (cnt_bit j x Hj).
+  apply andb_true_iff. split; apply andb_true_iff; split; apply Nat.ltb_lt; lia.
+Qed.
+
+Lemma proper_exists t S m : vtree n t S -> nleaves t = m -> m < n ->
+  exists i, i < n /\ N.testbit S (N.of_nat i) = false.
+Proof.
+  intros Hv Hm Hlt. apply vtree_iff in Hv. destruct Hv as (Hnd & Hb & ->).
+  destruct (existsb (fun i => negb (N.testbit (mask t) (N.of_nat i))) (seq 0 n)) eqn:E.
+  - apply existsb_exists in E. destruct E as (i & Hi & Hn). apply in_seq in Hi.
+    exists i. split; [lia|]. destruct (N.testbit (mask t) (N.of_nat i)); [discriminate|reflexivity].
+  - exfalso.
+    assert (Hincl : incl (seq 0 n) (leaves t)).
+    { intros i Hi. destruct (N.testbit (mask t) (N.of_nat i)) eqn:Tb.
+      - apply mask_spec in Tb. rewrite Nat2N.id in Tb. exact Tb.
+      - assert (X : existsb (fun i => negb (N.testbit (mask t) (N.of_nat i))) (seq 0 n) = true).
+        { apply existsb_exists. exists i. split; [exact Hi | rewrite Tb; reflexivity]. }
+        congruence. }
+    pose proof (NoDup_incl_length (seq_NoDup n 0) Hincl) as Hlen.
+    rewrite seq_length, <- nleaves_length in Hlen. lia.
+Qed.
+
+Lemma outer_free_trees : 1 <= n -> forall m, 1 <= m <= n ->
+  exists t S, vtree n t S /\ nleaves t = m /\ outer_free nodes app t = true.
+Proof.
+  intros Hn m. induction m as [|m IH]; intros Hm; [lia|].
+  destruct (Nat.eq_dec m 0) as [->|Hm0].
+  - exists (Leaf 0), (bit 0). split; [constructor; lia|]. split; reflexivity.
+  - destruct IH as (t & S & Hv & Hnl & Hof); [lia|].
+    destruct (proper_exists t S m Hv Hnl ltac:(lia)) as (i & Hi & Hbi).
+    destruct (Hconn S (vtree_nonzero _ _ _ Hv)) as (j & x & Hj & Hbj & Hx & Hc & Hl).
+    + intros k Hk. apply vtree_iff in Hv. destruct Hv as (_ & Hb & ->).
+      apply Hb. apply mask_spec in Hk. rewrite Nat2N.id in Hk. exact Hk.
+    + exists i. auto.
+    + exists (Node t (Leaf j)), (N.lor S (bit j)).
+      split; [constructor; [exact Hv | constructor; exact Hj | apply land_bit_0, Hbj]|].
+      split; [cbn [nleaves]; lia|].
+      cbn [outer_free mask]. rewrite Hof, (vtree_mask _ _ _ Hv). cbn [andb].
+      apply (grow_step S j x Hj Hbj Hx Hc Hl).
+Qed.
+
+(* hence: an admissible tree over all tensors exists whatever search_outer is *)
+Theorem connected_has_outer_free_tree : 1 <= n ->
+  exists t, full_tree n t /\ outer_free nodes app t = true.
+Proof.
+  intros Hn. destruct (outer_free_trees Hn n ltac:(lia)) as (t & S & Hv & Hnl & Hof).
+  exists t. split; [exact (vtree_full _ _ _ Hv Hnl) | exact Hof].
+Qed.
+
+End Grow.
